@@ -36,11 +36,14 @@ type Op struct {
 	Code     int    `json:"code,omitempty"`      // 0 = most recently issued code, k = k-th before it (mod count)
 	CodeForm string `json:"code_form,omitempty"` // "" as issued | mangled | garbage
 	As       int    `json:"as,omitempty"`        // whose credentials: 0 = the client the code was issued to, k = Clients[(k-1) mod n]
-	Pres     string `json:"pres,omitempty"`      // "" registered method, right secret/key | wrong_secret | id_only | swap_method | bad_key | none | stored_basic | stored_post (private_key_jwt client for which the storage also holds a secret: that secret instead of an assertion)
+	Pres     string `json:"pres,omitempty"`      // "" registered method, right secret/key | wrong_secret | id_only | swap_method | bad_key | foreign_key (assertion naming the As client, its kid, signed with the registered key of ANOTHER private_key_jwt client: the one that last authenticated with an assertion in this history, else any other) | none | stored_basic | stored_post (private_key_jwt client for which the storage also holds a secret: that secret instead of an assertion)
 	BodyID   string `json:"body_id,omitempty"`   // extra client_id form value: "" | own (the As client) | owner (the code's client)
 	Redirect string `json:"redirect,omitempty"`  // "" the request's | other (another registered one) | caller (one of the As client) | missing | a near-miss derivation of the request's (nearKinds)
 	Ver      string `json:"ver,omitempty"`       // "" the request's verifier | wrong | missing | other (verifier of another request) | challenge (the challenge string itself)
 	Extra    bool   `json:"extra,omitempty"`     // token request additionally carries nonce= scope= state= sub= (must be ignored)
+
+	// callback, exchange: one storage fault injected into this very HTTP request (nil: the storage works)
+	Fault *vkit.Fault `json:"fault,omitempty"`
 }
 
 type Case struct {
@@ -54,6 +57,7 @@ type Case struct {
 const (
 	issuer    = "https://op.example.com"
 	sharedURI = "https://shared.example.com/cb"
+	sharedKID = "key1"
 	rsID      = "rs"
 	rsSecret  = "rs-secret"
 )
@@ -80,7 +84,10 @@ func genClient(t *rapid.T, i int, kind string) vkit.ClientSpec {
 		c.AppType, c.AuthMethod, c.Secret = "web", "client_secret_post", "secret-of-"+id
 	case "pkjwt":
 		c.AppType, c.AuthMethod = "web", "private_key_jwt"
-		c.Keys = map[string]string{"k-" + id: []string{"rsa2", "rsa3", "p256b", "rsa4"}[i%4]} // RS256 / ES256: what the OP accepts for client assertions
+		// RS256 / ES256: what the OP accepts for client assertions. Every client has its own key; the key id is the client's
+		// business (nothing makes key ids unique across clients): several clients may name their - different - keys alike.
+		kid := rapid.SampledFrom([]string{"k-" + id, sharedKID, sharedKID}).Draw(t, fmt.Sprintf("cl%d-kid", i))
+		c.Keys = map[string]string{kid: []string{"rsa2", "rsa3", "p256b", "rsa4"}[i%4]}
 		if rapid.Bool().Draw(t, fmt.Sprintf("cl%d-storedsecret", i)) {
 			// the storage also holds (and accepts) a secret for this client, e.g. left over from an earlier registration
 			c.Secret = "stored-secret-of-" + id
@@ -224,9 +231,33 @@ func genAuthorize(t *rapid.T, nClients int) Op {
 	return o
 }
 
+// Storage methods on the path of a code exchange / of a callback (a fault on any other method never fires, which is
+// harmless: the request is then judged like an unfaulted one). DeleteAuthRequest is what spends the code, so it is drawn more often.
+var exchangeFaultMethods = []string{"GetClientByClientID", "AuthorizeClientIDSecret", "GetKeyByIDAndClientID", "AuthRequestByCode",
+	"CreateAccessToken", "CreateAccessAndRefreshTokens", "SigningKey", "SignatureAlgorithms", "SetUserinfoFromScopes", "GetPrivateClaimsFromScopes",
+	"DeleteAuthRequest", "DeleteAuthRequest", "DeleteAuthRequest"}
+
+var callbackFaultMethods = []string{"AuthRequestByID", "SaveAuthCode", "GetClientByClientID"}
+
+var faultKinds = []string{"error", "error", "deadline", "partial", "oidc", "oidc-wrapped"}
+
+// genFault: one storage fault for one request: every call of a method, or the k-th storage call whatever it is.
+func genFault(t *rapid.T, methods []string, maxCall int) *vkit.Fault {
+	f := &vkit.Fault{Kind: rapid.SampledFrom(faultKinds).Draw(t, "fault-kind")}
+	if rapid.Bool().Draw(t, "fault-by-method") {
+		f.Method = rapid.SampledFrom(methods).Draw(t, "fault-method")
+	} else {
+		f.Call = rapid.IntRange(1, maxCall).Draw(t, "fault-call")
+	}
+	return f
+}
+
 func genExchange(t *rapid.T, nClients int) Op {
 	o := Op{Kind: "exchange"}
 	o.Code = rapid.SampledFrom(backIdx).Draw(t, "code")
+	if rapid.IntRange(0, 4).Draw(t, "faulted") == 0 {
+		o.Fault = genFault(t, exchangeFaultMethods, 12)
+	}
 	if rapid.IntRange(0, 3).Draw(t, "deviate") == 0 {
 		return o // the honest redemption (or, on a spent code, the plain replay)
 	}
@@ -234,7 +265,7 @@ func genExchange(t *rapid.T, nClients int) Op {
 	if rapid.IntRange(0, 2).Draw(t, "foreign") == 0 {
 		o.As = rapid.IntRange(1, nClients).Draw(t, "as")
 	}
-	o.Pres = rapid.SampledFrom([]string{"", "", "", "", "", "", "", "", "wrong_secret", "id_only", "swap_method", "bad_key", "none", "stored_basic", "stored_post"}).Draw(t, "pres")
+	o.Pres = rapid.SampledFrom([]string{"", "", "", "", "", "", "", "", "wrong_secret", "id_only", "swap_method", "bad_key", "foreign_key", "foreign_key", "none", "stored_basic", "stored_post"}).Draw(t, "pres")
 	o.BodyID = rapid.SampledFrom([]string{"", "", "", "", "", "own", "owner", "owner"}).Draw(t, "bodyid")
 	o.Redirect = rapid.SampledFrom(redirectChoices).Draw(t, "redirect")
 	o.Ver = rapid.SampledFrom([]string{"", "", "", "", "", "", "", "wrong", "missing", "missing", "other", "challenge"}).Draw(t, "ver")
@@ -256,7 +287,7 @@ func genCase0(t *rapid.T) Case {
 	c.Router = rapid.SampledFrom([]string{"provider", "legacy"}).Draw(t, "router")
 	c.SignAlg = rapid.SampledFrom([]string{"RS256", "RS256", "RS256", "ES256", "PS256", "EdDSA"}).Draw(t, "signalg")
 	n := rapid.IntRange(3, 5).Draw(t, "nclients")
-	all := []string{"basic", "post", "pkjwt", "native", "spa", "native", "basic"}
+	all := []string{"basic", "post", "pkjwt", "pkjwt", "pkjwt", "native", "spa", "native", "basic"}
 	for i := 0; i < n; i++ {
 		var kind string
 		switch i {
@@ -279,13 +310,22 @@ func genCase0(t *rapid.T) Case {
 		}
 		switch step {
 		case "flow":
-			c.Ops = append(c.Ops, genAuthorize(t, n), Op{Kind: "login", User: rapid.IntRange(0, 2).Draw(t, "user")}, Op{Kind: "callback"})
+			cb := Op{Kind: "callback"}
+			user := rapid.IntRange(0, 2).Draw(t, "user")
+			if rapid.IntRange(0, 11).Draw(t, "cb-faulted") == 0 {
+				cb.Fault = genFault(t, callbackFaultMethods, 4)
+			}
+			c.Ops = append(c.Ops, genAuthorize(t, n), Op{Kind: "login", User: user}, cb)
 		case "authorize":
 			c.Ops = append(c.Ops, genAuthorize(t, n))
 		case "login":
 			c.Ops = append(c.Ops, Op{Kind: "login", Req: rapid.SampledFrom(backIdx).Draw(t, "req"), User: rapid.IntRange(0, 2).Draw(t, "user")})
 		case "callback":
-			c.Ops = append(c.Ops, Op{Kind: "callback", Req: rapid.SampledFrom(backIdx).Draw(t, "req")})
+			cb := Op{Kind: "callback", Req: rapid.SampledFrom(backIdx).Draw(t, "req")}
+			if rapid.IntRange(0, 5).Draw(t, "cb-faulted") == 0 {
+				cb.Fault = genFault(t, callbackFaultMethods, 4)
+			}
+			c.Ops = append(c.Ops, cb)
 		case "exchange":
 			c.Ops = append(c.Ops, genExchange(t, n))
 		}
@@ -306,6 +346,8 @@ type exec struct {
 	signKey *vkit.KeyInfo
 
 	okKeys, noKeys map[string]bool
+	faultKeys      map[string]bool
+	lastAsserter   int // index of the client that last presented a valid assertion of its own (-1: none yet)
 	trace          []string
 	accepted       int
 	asserted       int
@@ -421,7 +463,12 @@ func (e *exec) callback(o Op) {
 	if rq.id == "" {
 		return
 	}
+	e.arm(o.Fault)
 	resp := e.ag.Callback(rq.id)
+	if fired := e.disarm(resp); fired != nil {
+		// nothing about a failing callback is C04's subject; whatever it delivered is tracked as usual
+		e.res.Label("callback:faulted", "callback:faulted:"+fired.Method)
+	}
 	if e.checkPanic(resp, "callback") {
 		return
 	}
@@ -452,16 +499,50 @@ func (e *exec) callback(o Op) {
 // present builds the credential presentation and its wire description.
 func (e *exec) present(o Op, as, owner *vkit.ClientSpec) (vkit.Cred, wire) {
 	var cr vkit.Cred
+	signedWith := "" // pool key an assertion is signed with
+	signedKID := ""
 	assertion := func(valid bool) vkit.Cred {
 		now := time.Now()
+		// right issuer and kid (if the client has one) ...
+		signedKID = kidOf(as)
 		if valid {
+			signedWith = as.Keys[signedKID] // ("" for a client without keys: vkit sends the string "no-key")
 			return vkit.Cred{Kind: "assertion", Assertion: vkit.ClientAssertion(as, issuer, now)}
 		}
-		// right issuer and kid (if the client has one), signed with a key that is not registered for it
-		kid := "k-" + as.ID
-		return vkit.Cred{Kind: "assertion", Assertion: vkit.AssertionWith(as.ID, as.ID, []string{issuer}, kid, "p384", now.Add(-5*time.Second), now.Add(5*time.Minute), nil)}
+		// ... signed with a key that is not registered for anybody
+		signedWith = "p384"
+		return vkit.Cred{Kind: "assertion", Assertion: vkit.AssertionWith(as.ID, as.ID, []string{issuer}, signedKID, signedWith, now.Add(-5*time.Second), now.Add(5*time.Minute), nil)}
 	}
 	switch o.Pres {
+	case "foreign_key":
+		// somebody who holds the private key of another private_key_jwt client names `as` (issuer, subject, as's key id) and signs
+		// with that other client's key: preferably the client that last authenticated with an assertion in this history
+		signer := -1
+		if e.lastAsserter >= 0 && e.c.Clients[e.lastAsserter].ID != as.ID {
+			signer = e.lastAsserter
+		} else {
+			for i := range e.c.Clients {
+				if c := &e.c.Clients[i]; c.AuthMethod == "private_key_jwt" && c.ID != as.ID && len(c.Keys) > 0 {
+					signer = i
+					break
+				}
+			}
+		}
+		if signer < 0 {
+			cr = assertion(false)
+			break
+		}
+		sc := &e.c.Clients[signer]
+		now := time.Now()
+		signedKID, signedWith = kidOf(as), sc.Keys[kidOf(sc)]
+		cr = vkit.Cred{Kind: "assertion", Assertion: vkit.AssertionWith(as.ID, as.ID, []string{issuer}, signedKID, signedWith, now.Add(-5*time.Second), now.Add(5*time.Minute), nil)}
+		e.res.Label("pres:foreign-key")
+		if kidOf(sc) == kidOf(as) {
+			e.res.Label("pres:foreign-key:kid-shared-with-signer")
+			if signer == e.lastAsserter {
+				e.res.Label("pres:foreign-key:kid-shared-with-signer:after-signer-authenticated")
+			}
+		}
 	case "":
 		if as.AuthMethod == "private_key_jwt" {
 			cr = assertion(true)
@@ -525,7 +606,8 @@ func (e *exec) present(o Op, as, owner *vkit.ClientSpec) (vkit.Cred, wire) {
 		}
 	case "assertion":
 		w.hasAssertion, w.assertIss = true, as.ID
-		w.assertValid = as.AuthMethod == "private_key_jwt" && (o.Pres == "" || o.Pres == "stored_basic" || o.Pres == "stored_post")
+		// valid: signed by the key registered for the named client under the named key id (audience and validity are always right here)
+		w.assertValid = as.AuthMethod == "private_key_jwt" && signedWith != "" && as.Keys[signedKID] == signedWith
 		w.bodyID = cr.BodyID
 	case "none":
 		w.bodyID = cr.ClientID
@@ -534,6 +616,51 @@ func (e *exec) present(o Op, as, owner *vkit.ClientSpec) (vkit.Cred, wire) {
 		}
 	}
 	return cr, w
+}
+
+// kidOf: the key id a client's assertions carry (vkit.ClientAssertion: the first in order), "k-<id>" for a client without keys.
+func kidOf(c *vkit.ClientSpec) string {
+	kid := ""
+	for k := range c.Keys {
+		if kid == "" || k < kid {
+			kid = k
+		}
+	}
+	if kid == "" {
+		return "k-" + c.ID
+	}
+	return kid
+}
+
+// arm installs the fault of an op for the HTTP request that follows; disarm removes it and tells which storage call it hit (nil: none).
+func (e *exec) arm(f *vkit.Fault) {
+	if f == nil {
+		return
+	}
+	ff := *f
+	ff.Req = 0 // the plan lives for exactly one request
+	if ff.Call < 0 {
+		ff.Call = 0
+	}
+	known := false
+	for _, k := range faultKinds {
+		known = known || k == ff.Kind
+	}
+	if !known {
+		ff.Kind = "error"
+	}
+	e.st.SetFaults(ff)
+}
+
+func (e *exec) disarm(resp *vkit.Resp) *vkit.JEntry {
+	e.st.SetFaults()
+	for _, j := range e.st.CallsOf(resp.Req) {
+		if j.Fault {
+			j := j
+			return &j
+		}
+	}
+	return nil
 }
 
 func (e *exec) exchange(i int, o Op) {
@@ -644,9 +771,23 @@ func (e *exec) exchange(i int, o Op) {
 		form.Set("state", "state-from-token-request")
 		form.Set("sub", "u3")
 	}
+	e.arm(o.Fault)
 	resp := e.ag.Token(form, cred)
+	fired := e.disarm(resp)
+	if w.hasAssertion && w.assertValid {
+		for ci := range clients {
+			if clients[ci].ID == w.assertIss {
+				e.lastAsserter = ci
+			}
+		}
+	}
 	if e.checkPanic(resp, "token endpoint") {
 		return
+	}
+	if fired != nil && vd.v == 1 {
+		// a storage call of this request failed: whether the exchange may fail is property C10's business. What C04 keeps asserting:
+		// a must-reject stays a must-reject, and whatever this request answers, the code yields tokens at most once (below).
+		vd = verdict{0, []string{"storage-fault"}}
 	}
 	material := resp.HasTokenMaterial()
 	issued := len(material) > 0
@@ -655,6 +796,15 @@ func (e *exec) exchange(i int, o Op) {
 	ownerKind := clientKind(owner)
 	desc := fmt.Sprintf("op %d: code of %s (%s, pkce=%s, redirect %s) presented by %+v redirect=%q(missing=%v) verifier=%q", i, owner.ID, ownerKind,
 		methodOf(rq), reqRedirect, w, a.redirect, a.noRedirect, a.verifier)
+	if fired != nil {
+		desc += fmt.Sprintf(" [storage fault %q in %s, storage call %d of this request]", o.Fault.Kind, fired.Method, fired.Call)
+	}
+	if a.code != nil && a.code.faultedOK {
+		desc += " [this code already yielded tokens in a request that hit a storage fault]"
+	}
+	if rq != nil && rq.unsure {
+		desc += " [an earlier exchange of a code of this request hit a storage fault and answered without tokens]"
+	}
 
 	e.res.Label("as:" + map[bool]string{true: "owner", false: "other-client"}[as == owner])
 	if vd.v != 0 {
@@ -696,7 +846,35 @@ func (e *exec) exchange(i int, o Op) {
 		}
 		e.res.Label("ex:grey-outcome:" + map[bool]string{true: "tokens", false: "refused"}[issued])
 	}
-	e.trace = append(e.trace, fmt.Sprintf("x%d %s v=%d %v -> %d tokens=%v", i, owner.ID, vd.v, vd.reasons, resp.Status, issued))
+	faultNote := ""
+	if fired != nil {
+		outcome := map[bool]string{true: "tokens", false: "refused"}[issued]
+		faultNote = fmt.Sprintf(" fault(%s)@%s#%d", o.Fault.Kind, fired.Method, fired.Call)
+		e.res.Label("ex:faulted", "ex:faulted:"+fired.Method, "ex:faulted-kind:"+o.Fault.Kind, "ex:faulted-outcome:"+outcome)
+		if vd.v == 0 && len(vd.reasons) == 1 && vd.reasons[0] == "storage-fault" {
+			e.res.Label("ex:faulted-otherwise-valid:" + fired.Method + ":" + outcome)
+			e.faultKeys[fired.Method+":"+outcome] = true
+		}
+		if !issued && rq != nil {
+			// the failed request may or may not have spent the code (a storage may have deleted the request and still reported an error):
+			// from now on an otherwise valid redemption may succeed - at most once - or fail
+			rq.unsure = true
+		}
+	} else if o.Fault != nil {
+		e.res.Label("ex:fault-not-reached")
+	}
+	if a.code != nil && issued {
+		switch {
+		case a.code.faultedOK:
+			e.res.Label("ex:tokens-again-after-faulted-success")
+		case rq.unsure:
+			e.res.Label("ex:retry-after-faulted-refusal:tokens")
+		}
+		if fired != nil {
+			a.code.faultedOK = true
+		}
+	}
+	e.trace = append(e.trace, fmt.Sprintf("x%d %s v=%d %v%s -> %d tokens=%v", i, owner.ID, vd.v, vd.reasons, faultNote, resp.Status, issued))
 
 	if !issued {
 		return
@@ -838,7 +1016,7 @@ func run(c Case) (res *vkit.Result) {
 		res.Label("skip:malformed-case")
 		return res
 	}
-	e := &exec{c: c, res: res, okKeys: map[string]bool{}, noKeys: map[string]bool{}}
+	e := &exec{c: c, res: res, okKeys: map[string]bool{}, noKeys: map[string]bool{}, faultKeys: map[string]bool{}, lastAsserter: -1}
 	e.rs = vkit.ClientSpec{ID: rsID, Secret: rsSecret, AppType: "web", AuthMethod: "client_secret_basic"}
 	var regs []*vkit.ClientSpec
 	for i := range c.Clients {
@@ -877,6 +1055,26 @@ func run(c Case) (res *vkit.Result) {
 		return l
 	}
 	res.Key = fmt.Sprintf("%s|ok=%v|no=%v", c.Router, keys(e.okKeys), keys(e.noKeys))
+	if len(e.faultKeys) > 0 {
+		res.Key += fmt.Sprintf("|faults=%v", keys(e.faultKeys))
+	}
+	kids := map[string]int{}
+	npk := 0
+	for i := range c.Clients {
+		if c.Clients[i].AuthMethod == "private_key_jwt" {
+			npk++
+			kids[kidOf(&c.Clients[i])]++
+		}
+	}
+	if npk >= 2 {
+		res.Label("clients:private_key_jwt>=2")
+		for _, n := range kids {
+			if n >= 2 {
+				res.Label("clients:private_key_jwt-sharing-a-kid")
+				break
+			}
+		}
+	}
 	if res.NonTrivial {
 		res.Label("history:non-trivial")
 	}
